@@ -854,17 +854,17 @@ class Network:
                 )
             )
 
+            self._finalize_peer_connection(connection)
+
+            await self._event_bus.emit(
+                PeerInitializedEvent(connection, requested=True))
+
         except asyncio.CancelledError:
-            # Cancelled before the connection got initialized (for example
-            # because the indirect connection won the race): nobody will own
-            # this connection
+            # Cancelled before the connection got handed to the caller (for
+            # example because the indirect connection won the race): nobody
+            # will own this connection
             await connection.disconnect(CloseReason.REQUESTED)
             raise
-
-        self._finalize_peer_connection(connection)
-
-        await self._event_bus.emit(
-            PeerInitializedEvent(connection, requested=True))
 
         return connection
 
@@ -1175,7 +1175,12 @@ class Network:
                 await self._event_bus.emit(
                     PeerInitializedEvent(connection, requested=True))
 
-                connection_future.set_result(connection)
+                if connection_future.done():
+                    # The request ended (timeout, CannotConnect, cancelled)
+                    # while the listeners were being notified
+                    await connection.disconnect(CloseReason.REQUESTED)
+                else:
+                    connection_future.set_result(connection)
 
         else:
             logger.warning(
